@@ -173,7 +173,7 @@ def _current_inv(v, o):
 ALL_ERRORS = {e: (lambda o: True) for e in ("IndexError", "KeyError", "ValueError", "AttributeError", "TypeError")}
 
 
-@contract(f"{P}.parse_agp", kind="function", properties=("C05",))
+@contract(f"{P}.parse_agp", kind="function", properties=("C05", "C17", "C04"))
 class _:
     params = {"file": TList(STR), "name": STR}
     result = ASM
